@@ -167,41 +167,62 @@ type instCtx struct {
 	fallback []*sx // Skolem constants and zero: used for variables without a read pattern
 	fbSet    map[string]bool
 	canonMem map[*sx]string
+	atomCanon map[string]string
+	intern    map[string]string
 	nReads   int
 }
 
 const bv64Sort = "(_ BitVec 64)"
 
-// canon renders a term with array-valued and index definitions expanded, so
-// that syntactically different spellings of the same term compare equal.
+// canon gives a term a canonical identity with definitions expanded, so that
+// syntactically different spellings of the same term compare equal. Identities
+// are interned bottom-up (hash-consing), which keeps them small even though the
+// memory terms are DAGs that would be exponential when written out.
 func (ic *instCtx) canon(n *sx) string {
 	if s, ok := ic.canonMem[n]; ok {
 		return s
 	}
-	var b strings.Builder
-	ic.canonWrite(n, &b, 0)
-	s := b.String()
+	s := ic.canonOf(n, 0)
 	ic.canonMem[n] = s
 	return s
 }
 
-func (ic *instCtx) canonWrite(n *sx, b *strings.Builder, depth int) {
+func (ic *instCtx) canonOf(n *sx, depth int) string {
 	if n.list == nil {
-		if d, ok := ic.defs[n.atom]; ok && depth < 40 {
-			ic.canonWrite(d, b, depth+1)
-			return
+		if id, ok := ic.atomCanon[n.atom]; ok {
+			return id
 		}
-		b.WriteString(n.atom)
-		return
+		if d, ok := ic.defs[n.atom]; ok && depth < 200 {
+			id := ic.canonOf(d, depth+1)
+			ic.atomCanon[n.atom] = id
+			return id
+		}
+		return n.atom
 	}
+	if s, ok := ic.canonMem[n]; ok {
+		return s
+	}
+	var b strings.Builder
 	b.WriteByte('(')
 	for i, c := range n.list {
 		if i > 0 {
 			b.WriteByte(' ')
 		}
-		ic.canonWrite(c, b, depth)
+		b.WriteString(ic.canonOf(c, depth+1))
 	}
 	b.WriteByte(')')
+	key := b.String()
+	id, ok := ic.intern[key]
+	if !ok {
+		if len(key) <= 40 {
+			id = key
+		} else {
+			id = fmt.Sprintf("#%d", len(ic.intern))
+		}
+		ic.intern[key] = id
+	}
+	ic.canonMem[n] = id
+	return id
 }
 
 func (ic *instCtx) resolve(n *sx) *sx {
@@ -610,7 +631,7 @@ func (ic *instCtx) tuples(body *sx, vars []string) [][]*sx {
 // assertion strings and extra declarations.
 func (c *Ctx) Preprocess(asserts []string, usedDefs map[string]string, lite bool) ([]string, []decl) {
 	ic := &instCtx{c: c, dropQ: lite, maxInst: 64, reads: map[string]map[string]*sx{}, fbSet: map[string]bool{},
-		canonMem: map[*sx]string{}, defs: map[string]*sx{}}
+		canonMem: map[*sx]string{}, defs: map[string]*sx{}, atomCanon: map[string]string{}, intern: map[string]string{}}
 	var trees []*sx
 	any := false
 	for _, a := range asserts {
